@@ -698,9 +698,20 @@ def _compare(case, before, after, stage, viol, text) -> bool:
     for key, b in before["enabled"].items():
         a = after["enabled"].get(key, "missing")
         if a != b:
-            ok = False
             val = "none" if before["data"].get(key, {"k": "missing"})["k"] == "none" else "value"
             ctx = _context(case, key)
+            if (
+                b is True
+                and a is False
+                and val == "none"
+                and after["data"].get(key, {"k": "missing"})["k"] == "none"
+                and ctx.startswith("optional-enabled")
+            ):
+                # documented normalisation (InputFile.validation_options, update_enabled): an
+                # optional parameter that holds no value is written as disabled.  The statement
+                # itself pairs None with disabled ("None for disabled parameters"): not compared.
+                continue
+            ok = False
             wit = f"{stage}enabled {b} -> {a} (data {val}) [{ctx}]{_via(case, key, stage, ctx)}"
             viol.append(("enabled-roundtrip", wit, {"key": key, "before": b, "after": a, "file": _raw_forms(text, case), "data_before": before["data"].get(key), "data_after": after["data"].get(key)}))
     return ok
@@ -801,5 +812,10 @@ def run_any(case):
     if _RUNS[0] % 40 == 0:
         world.full_collect()  # GC is disabled by the World; entity graphs are cyclic
     if "pd" in case:
-        return execute_pd(case)
+        cwd = os.getcwd()
+        os.chdir(world.scratch())  # nothing may be created outside the scratch area
+        try:
+            return execute_pd(case)
+        finally:
+            os.chdir(cwd)
     return execute(case)
